@@ -16,6 +16,8 @@ Decided (the four links every acknowledged operation traverses, on all CFG paths
             grows) walk away from their destination: a right shift (dst = src + unsigned) visits blocks tail-first,
             a left shift head-first (memmove rule; sign abstraction over the loop's linear position forms - a forward
             walk of a right shift overwrites blocks it has not read yet as soon as the region exceeds the shift).
+  FLOW-C01g  (shared with FLOW-C05i) the pending byte count of a reopened WAL is the sum over the scanned records newer
+             than the checkpoint; an under-count lets the next append overwrite acknowledged, uncommitted puts.
 Not decided: equality with a reference model over histories (runtime values)."""
 from . import lib, monotone, effects
 from .facts import Place, op_place
@@ -60,6 +62,8 @@ def dedup_exempt(fn, ex):
 
 
 def run(ctx):
+    from . import c05
+    c05._open_pending(ctx, ctx.facts(), 'FLOW-C01g')     # a reopened WAL that under-counts its pending bytes overwrites acknowledged records
     ctx.rule('MPT-C01a', 'every Ok exit of put_internal/delete_frame/put wrappers is dominated by a successful WAL append')
     ctx.rule('MPT-C01b', 'record_checkpoint is dominated by apply_records success on the WAL\'s own records')
     ctx.rule('WMC-C01c', 'callers of record_checkpoint/apply_records are the reviewed table')
